@@ -1370,6 +1370,13 @@ func (enc *VP8Encoder) EncodeFrame() ([]byte, error) {
 		if !doSearch {
 			break // quality mode: single pass
 		}
+		if pass == maxPasses-1 {
+			// Last pass: the frame is emitted from this pass's coefficients,
+			// so the quantizers and segment header must stay the ones it was
+			// encoded with (adjustQuantForTarget would replace them and
+			// restore the source planes for a pass that never runs).
+			break
+		}
 		// Rate control: check if we hit the target.
 		if enc.adjustQuantForTarget() {
 			break
